@@ -81,3 +81,41 @@ Proof.
   split; [|reflexivity].
   intro H. apply (f_equal (fun r => cd (fst r) 1%nat)) in H. vm_compute in H. discriminate H.
 Qed.
+
+(** ** the iterm2 properties *)
+
+Lemma jpeg_quality_is_step_lemma :
+  forall (par : nat -> nat) (s : state) (x : nat) (a : parg),
+    pcls_run jcode s x a src_jpeg_quality_set = step k_jpeg_quality par s (ClsSet x (jcode a))
+    /\ pinst_run jcode s x a src_jpeg_quality_set = step k_jpeg_quality par s (InstSet x (jcode a))
+    /\ pcls_run jcode s x a src_jpeg_quality_del = step k_jpeg_quality par s (ClsUnset x)
+    /\ pinst_run jcode s x a src_jpeg_quality_del = step k_jpeg_quality par s (InstUnset x)
+    /\ k_default k_jpeg_quality = src_jpeg_quality_default.
+Proof.
+  intros par s x a.
+  unfold pcls_run, pinst_run, src_jpeg_quality_set, src_jpeg_quality_del, jcode.
+  cbn [pexec step k_jpeg_quality k_valid k_inst_set k_cls_unset k_pinned].
+  repeat split.
+  - destruct a as [|v|b]; cbn [pcond_holds pval].
+    + reflexivity.
+    + rewrite Z.leb_antisym. destruct (95 <? v)%Z; reflexivity.
+    + destruct b; reflexivity.
+  - destruct a as [|v|b]; cbn [pcond_holds pval].
+    + reflexivity.
+    + rewrite Z.leb_antisym. destruct (95 <? v)%Z; reflexivity.
+    + destruct b; reflexivity.
+Qed.
+
+Lemma read_from_file_is_step_lemma :
+  forall (par : nat -> nat) (s : state) (x : nat) (a : parg),
+    pcls_run rcode s x a src_read_from_file_set = step k_read_from_file par s (ClsSet x (rcode a))
+    /\ pinst_run rcode s x a src_read_from_file_set = step k_read_from_file par s (InstSet x (rcode a))
+    /\ pcls_run rcode s x a src_read_from_file_del = step k_read_from_file par s (ClsUnset x)
+    /\ pinst_run rcode s x a src_read_from_file_del = step k_read_from_file par s (InstUnset x)
+    /\ k_default k_read_from_file = (if src_read_from_file_default then 1 else 0)%Z.
+Proof.
+  intros par s x a.
+  unfold pcls_run, pinst_run, src_read_from_file_set, src_read_from_file_del.
+  cbn [pexec step k_read_from_file k_valid k_inst_set k_cls_unset k_pinned].
+  repeat split; destruct a as [|v|b]; cbn [pcond_holds rcode]; try reflexivity; destruct b; reflexivity.
+Qed.
